@@ -1083,9 +1083,16 @@ __wrap_pthread_mutex_destroy(pthread_mutex_t *m)
 			Thr *t = G.thr[i];
 			if (!t->done && ((t->st == ST_MUTEX && t->wobj == s) ||
 			                    (t->st == ST_CV && t->wmtx == s)))
+			{
+				char   site[160];
+				size_t o = 0;
+				site[0]  = 0;
+				for (int k = 0; k < 6 && t->wsite[k] != NULL && o + 24 < sizeof(site); k++)
+					o += (size_t) snprintf(site + o, sizeof(site) - o, "%s%p", k ? "<" : "", t->wsite[k]);
 				sim_violation(NULL, "mutex_destroy_waited",
-				    "mutex #%u destroyed by %s while %s waits for it",
-				    s->id, tl_self ? tl_self->name : "?", t->name);
+				    "mutex #%u destroyed by %s while %s waits for it (waiter at %s)",
+				    s->id, tl_self ? tl_self->name : "?", t->name, site);
+			}
 		}
 	memset(m, 0, sizeof(*m));
 	return 0;
@@ -1108,6 +1115,7 @@ __wrap_pthread_mutex_lock(pthread_mutex_t *m)
 	self->st      = ST_MUTEX;
 	self->wobj    = s;
 	self->from_cv = false;
+	sim_fp_walk(self->wsite, 6, 1);
 	sched_block(self);
 	// thr_unblock acquired it for us
 	return 0;
@@ -1166,6 +1174,7 @@ cond_wait_common(pthread_cond_t *c, pthread_mutex_t *m, uint64_t deadline)
 	sched_trace(EV_CWAIT, sc->id, sm->id);
 	sm->owner      = 0;
 	self->timedout = false;
+	sim_fp_walk(self->wsite, 6, 1);
 	if (G.cfg.spurious_wake_p > 0 &&
 	    sim_rand_chance(SIM_RNG_BUG, G.cfg.spurious_wake_p)) {
 		// spurious wake-up: go straight to re-acquiring the mutex
